@@ -26,7 +26,7 @@ RULE = ('cases: seeded histories of 20-50 ops over a hierarchy built per case: A
 ASSUMPTIONS = ['Agent/Environment/world classes are process-global: every history restores them through the public API in a finally block',
                'tags are plain ints']
 FLOORS = {'quick': {'two_type_class_queries': 82807, 'class_components_rearranged_in_one_go': 8, 'operations_after_which_nobody_looked': 2808, 'default_changed_before_the_new_agent_was_first_looked_at': 358, 'tags_read_inside_a_user_constructor': 185, 'classes_with_a_subclass_registry_hook': 376, 'agents_saved_and_restored_across_a_default_tag_change': 91, 'constructions_that_fail': 351, 'classes_from_a_shared_namespace_dict': 702, 'instances_numpy_tag': 827, 'class_observations': 100000, 'class_attach': 2000, 'class_detach': 380, 'rejected_duplicate_attach': 159,
-                    'rejected_absent_detach': 500, 'default_tag_changes': 2000, 'instances_default_tag': 1832,
+                    'rejected_absent_detach': 500, 'default_tag_changes': 2000, 'instances_default_tag': 1820,
                     'instances_default_tag_nonzero': 298, 'instances_explicit_tag': 800, 'instances_explicit_zero_vs_default': 100,
                     'environment_instances': 500, 'instances_added_to_environment': 1000, 'ops_on_library_classes': 2000, 'mid_history_classes': 500, 'same_named_classes': 300, 'big_many_classes': 2, 'big_many_class_components': 2,
                     'reach:Core._MetaAgent.add_class_component': 3000, 'reach:Core.Agent.__init__': 4600},
@@ -132,14 +132,17 @@ def case_history(ctx, case):
         return any(issubclass(K, P) and P is not K for P in classes), any(issubclass(C, K) and C is not K for C in classes)
 
     def observe(what):
-        for K in classes:
+        # classes and component types are visited in a different order at every look; the length is asked first or last
+        for K in rng.sample(classes, len(classes)):
             r = ref[K]
             ctx.count('class_observations')
             ctx.ev()
             detail = dict(after=what, cls=K.__name__, trace=trace[-10:])
             check(K.tag == r['tag'], f'{K.__name__}.tag is {K.tag!r}, expected {r["tag"]!r}', **detail)
-            check(len(K) == len(r['comps']), f'len({K.__name__}) is {len(K)}, expected {len(r["comps"])} class components', **detail)
-            for t in T:
+            len_first = rng.random() < 0.5
+            if len_first:
+                check(len(K) == len(r['comps']), f'len({K.__name__}) is {len(K)}, expected {len(r["comps"])} class components', **detail)
+            for t in rng.sample(T, len(T)):
                 c = r['comps'].get(t)
                 check(K[t] is c and K.get_class_component(t) is c, f'{K.__name__}[{t.__name__}] is not the component attached to that class', **detail)
                 check((t in K) == (c is not None) == K.has_class_component(t), f'{t.__name__} in {K.__name__} disagrees with the model', **detail)
@@ -149,11 +152,17 @@ def case_history(ctx, case):
                 else:
                     check(K.get_class_component(t, True) is c, 'strict getter returned the wrong component', **detail)
             check(K.has_class_component(*[t for t in T if t in r['comps']]) is True, 'has_class_component(all attached) is not True', **detail)
+            if not len_first:
+                check(len(K) == len(r['comps']), f'len({K.__name__}) is {len(K)}, expected {len(r["comps"])} class components', **detail)
             # templates of two types: true exactly when both are attached to THIS class now
             t1_, t2_ = rng.sample(T, 2)
             want_ = t1_ in r['comps'] and t2_ in r['comps']
             ctx.count('two_type_class_queries')
             check(K.has_class_component(t1_, t2_) is want_, f'{K.__name__}.has_class_component({t1_.__name__}, {t2_.__name__}) is not {want_}', **detail)
+        # the last class-level question of the look is a random one
+        K_last = rng.choice(classes)
+        rng.choice([lambda: len(K_last), lambda: K_last.has_class_component(*rng.sample(T, 2)), lambda: K_last.tag, lambda: K_last[rng.choice(T)],
+                    lambda: None])()
         for obj, tag, comps in instances:
             detail = dict(after=what, instance=type(obj).__name__, trace=trace[-10:])
             check(obj.tag == tag, f'instance of {type(obj).__name__} has tag {obj.tag!r}, expected {tag!r}', **detail)
